@@ -81,6 +81,8 @@ def task_table():
         s2 = Substance("Y", composition=dict(comp), data={"mass": Real("given")})
         return m, m1, m2, s.composition, s2.mass
 
+    parts = {}
+
     def goal(p, twin=False):
         if p.kind == "exc":
             return False
@@ -92,7 +94,9 @@ def task_table():
         if set(comp_after) != set(comp) or any(comp_after[k] is not comp[k] for k in comp):
             return False
         mt = lift(m)
-        return z3.And(mt - ref <= slack, ref - mt <= slack, eq_term(m1, m), eq_term(m2, m), eq_term(mgiven, Real("given")))
+        parts["value"] = z3.And(mt - ref <= slack, ref - mt <= slack)
+        parts["reads"] = z3.And(eq_term(m1, m), eq_term(m2, m), eq_term(mgiven, Real("given")))
+        return z3.And(parts["value"], parts["reads"])
 
     o = explore_and_prove(run, assum, goal)
     ot = explore_and_prove(run, assum, lambda p: goal(p, True), max_fail=1)
@@ -104,7 +108,9 @@ def task_table():
         else:
             cc = {k: model_value(m, v.t) for k, v in comp.items()}
             cc = {k: v for k, v in cc.items() if v != 0}
-            if 0 not in cc or len(cc) < 2:  # an ion, so that charge handling / repeated reads are exercised by the replay
+            value_fails = "value" in parts and z3.is_false(m.eval(parts["value"], model_completion=True))
+            if not value_fails or not cc:
+                # the failure concerns repeated reads / mutation of the caller's mapping: exercise it with an ion
                 cc = {0: -2, 16: 1, 8: 4}
         res["violations"].append(dict(key="mass:%s" % ("exc" if p.kind == "exc" else "value"),
                                       desc="composition %s: %s" % (cc, "raised %r" % (p.value,) if p.kind == "exc" else "mass differs from reference / repeated reads"),
